@@ -836,7 +836,7 @@ impl Part for ControlsInElse {
 crate::declare_parts!(Scopes, FailingIncludes, ControlsInElse);
 
 pub fn run(ctx: &mut Ctx) {
-    ctx.rule = "skeletons of nested scoped constructs (for with/without else, loop filter, recursive; with; set-block; filter block; autoescape on/off; if/else; macro + call; call block; scoped block; include of a template with its own break/continue; include / import / from-import of a template that itself extends a layout) up to depth 3 (thorough 4), with `break`/`continue` (each guarded by its own boolean) at every position the parser accepts; every if condition is its own context boolean and every loop iterates its own context list, and ALL assignments (2^k booleans x list lengths 0/1/2) are rendered when there are at most 160, else 160 sampled ones; in .txt and .html templates. Oracles per path: the verif_hooks balance monitor reports nothing (frame depth, capture depth, auto-escape stack, operand stack equal at entry and normal exit of every instruction-stream evaluation; no pop of a foreign frame/capture), a marker written after every top-level construct reaches the output in order, `{{ \"<\" }}` after it renders in the template's initial escape mode and `{{ \"<\" }}` printed right before and right after every nested scoped construct renders alike, a variable assigned inside an isolating construct (for, with, macro, call, block) is undefined after it, a variable assigned before keeps its value; no panic. Enumerated besides: includes (plain, ignore missing, lists of choices; 5 wrappers) of a template that exists and fails while one of its own constructs is open (7 failing statements x 10 open constructs): the render fails, or the text, escape mode and scope after the include are intact and the monitor reports nothing. Non-trivial: a break/continue separated from its loop by another scoped construct. Distinct by case.".into();
+    ctx.rule = "skeletons of nested scoped constructs (for with/without else, loop filter, recursive; with; set-block; filter block; autoescape on/off; if/else; macro + call; call block; scoped block; include of a template with its own break/continue; include / import / from-import of a template that itself extends a layout) up to depth 3 (thorough 4), with `break`/`continue` (each guarded by its own boolean) at every position the parser accepts; every if condition is its own context boolean and every loop iterates its own context list, and ALL assignments (2^k booleans x list lengths 0/1/2) are rendered when there are at most 160, else 160 sampled ones; in .txt and .html templates. Oracles per path: the verif_hooks balance monitor reports nothing (frame depth, capture depth, auto-escape stack, operand stack equal at entry and normal exit of every instruction-stream evaluation; no pop of a foreign frame/capture), a marker written after every top-level construct reaches the output in order, `{{ \"<\" }}` after it renders in the template's initial escape mode and `{{ \"<\" }}` printed right before and right after every nested scoped construct renders alike, a variable assigned inside an isolating construct (for, with, macro, call, block) is undefined after it, a variable assigned before keeps its value; no panic. Enumerated besides: includes (plain, ignore missing, lists of choices; 5 wrappers) of a template that exists and fails while one of its own constructs is open (7 failing statements x 10 open constructs): the render fails, or the text, escape mode and scope after the include are intact and the monitor reports nothing; and break/continue written in the else branch of a loop (7 wrappers x 4 controls x with/without an outer loop): rejected at load, or rendered without panic with the text, escape mode and scope after the construct intact. Non-trivial: a break/continue separated from its loop by another scoped construct. Distinct by case.".into();
     ctx.assumptions = vec!["paths beyond the cap of 160 per program are sampled (labelled paths_sampled)".into()];
     preamble(ctx);
     let t = ctx.tier;
